@@ -17,18 +17,18 @@ import (
 
 // PropDef describes how one property is explored.
 type PropDef struct {
-	ID         string
-	New        func() interface{}                               // empty plan (JSON target)
-	Gen        func(t *simrt.Tape, tier string) interface{}     // random plan from the plan tape
-	SweepLen   func(tier string) int                            // number of systematically enumerated plans (may be nil)
-	SweepPlan  func(tier string, i int) interface{}             // i-th systematic plan
-	Run        func(w *World, plan interface{})                 // scenario + oracles, runs as the main task
-	MaxSim     time.Duration
-	MaxSteps   int
-	PanicRule  string // when set, a panic of a lime-go goroutine in a run is this violation
+	ID           string
+	New          func() interface{}                           // empty plan (JSON target)
+	Gen          func(t *simrt.Tape, tier string) interface{} // random plan from the plan tape
+	SweepLen     func(tier string) int                        // number of systematically enumerated plans (may be nil)
+	SweepPlan    func(tier string, i int) interface{}         // i-th systematic plan
+	Run          func(w *World, plan interface{})             // scenario + oracles, runs as the main task
+	MaxSim       time.Duration
+	MaxSteps     int
+	PanicRule    string // when set, a panic of a lime-go goroutine in a run is this violation
 	LivelockRule string // when set, a run that burns its step budget at one simulated instant is this violation
-	Rule       string // how cases are generated and what makes one non-trivial (for the evidence file)
-	Components string
+	Rule         string // how cases are generated and what makes one non-trivial (for the evidence file)
+	Components   string
 }
 
 var registry = map[string]*PropDef{}
@@ -80,37 +80,37 @@ type knownRec struct {
 
 // WorkerOut is what a worker process reports to the driver.
 type WorkerOut struct {
-	Prop        string            `json:"prop"`
-	Tier        string            `json:"tier"`
-	Seed        uint64            `json:"seed"`
-	From        int               `json:"from"`
-	To          int               `json:"to"`
-	Runs        int               `json:"runs"`
-	Armed       int               `json:"armed"`
-	Sweep       int               `json:"sweep_runs"`
-	SweepTotal  int               `json:"sweep_total"`
-	Violations  []violRec         `json:"violations"`
-	Known       []knownRec        `json:"known"`
-	Faults      map[string]int    `json:"faults"`
-	Probes      map[string]int    `json:"probes"`
-	Counts      map[string]int    `json:"counts"`
-	Stops       map[string]int    `json:"stops"`
-	StepsTotal  int64             `json:"steps_total"`
-	StepsMax    int               `json:"steps_max"`
-	SimMsTotal  int64             `json:"sim_ms_total"`
-	Decisions   int64             `json:"decisions"`
-	Deviations  int64             `json:"deviations"`
-	Sites       map[string]int    `json:"sites"`
-	Samples     []json.RawMessage `json:"samples"`
-	DetChecked  int               `json:"det_checked"`
-	Nondet      []string          `json:"nondeterminism"`
-	Hashes      map[string]string `json:"hashes"`
-	HashFile    string            `json:"hash_file"`
-	Discarded   map[string]int    `json:"discarded"`
-	WallS       float64           `json:"wall_s"`
-	Infra       []string          `json:"infra_errors"`
-	BubbleErrs  map[string]int    `json:"bubble_errs"`
-	TaskPanics  []string          `json:"task_panics"`
+	Prop       string            `json:"prop"`
+	Tier       string            `json:"tier"`
+	Seed       uint64            `json:"seed"`
+	From       int               `json:"from"`
+	To         int               `json:"to"`
+	Runs       int               `json:"runs"`
+	Armed      int               `json:"armed"`
+	Sweep      int               `json:"sweep_runs"`
+	SweepTotal int               `json:"sweep_total"`
+	Violations []violRec         `json:"violations"`
+	Known      []knownRec        `json:"known"`
+	Faults     map[string]int    `json:"faults"`
+	Probes     map[string]int    `json:"probes"`
+	Counts     map[string]int    `json:"counts"`
+	Stops      map[string]int    `json:"stops"`
+	StepsTotal int64             `json:"steps_total"`
+	StepsMax   int               `json:"steps_max"`
+	SimMsTotal int64             `json:"sim_ms_total"`
+	Decisions  int64             `json:"decisions"`
+	Deviations int64             `json:"deviations"`
+	Sites      map[string]int    `json:"sites"`
+	Samples    []json.RawMessage `json:"samples"`
+	DetChecked int               `json:"det_checked"`
+	Nondet     []string          `json:"nondeterminism"`
+	Hashes     map[string]string `json:"hashes"`
+	HashFile   string            `json:"hash_file"`
+	Discarded  map[string]int    `json:"discarded"`
+	WallS      float64           `json:"wall_s"`
+	Infra      []string          `json:"infra_errors"`
+	BubbleErrs map[string]int    `json:"bubble_errs"`
+	TaskPanics []string          `json:"task_panics"`
 }
 
 func envInt(k string, d int) int {
